@@ -257,6 +257,31 @@ def known_replays(ctx, findings):
     return out
 
 
+def library_calls_oracle(rng, n):
+    """Calls of the Tiger library's functions (both conventions, edge arguments): the machine they leave behind is a
+    well-formed 16-bit machine (seed C02i: -1 in R1 after the register tstrcmp of a string with its proper prefix)."""
+    import C19 as lib
+    import stdlibcases as sc
+    out = []
+    for _ in range(n):
+        f, args = lib.gen_call(rng)
+        for conv in ("stack", "reg"):
+            if conv == "reg" and f in ("concat", "substring"):
+                continue
+            sent = {r: rng.choice([0, 1, 0x1234, 0x8000, 0xFFFF]) for r in range(1, 11)}
+            r = sc.run(sc.program(conv, f, args, sent, 2 if f == "malloc" else 1))
+            if "raise" in r:
+                continue                       # the library stopping the run is C19's business
+            bad = wf_snapshot(snapshot_vm(r["vm"]))
+            if bad:
+                out.append({"what": "after %s %s(%s): %s" % (conv, f, ", ".join(repr(a) for a in args), bad),
+                            "call": [conv, f, args]})
+                break
+        if len(out) >= 3:
+            break
+    return out
+
+
 def init_strings(rng, n):
     regs = ["r0", "R0", "r1", "R15", "sp", "FP", "pc_ret", "rt", "fp_alt", "r16", "r-1", "x", "r01", "", "r", "R", "r" + "7" * 4400,
             # signed register numbers: Python's negative indices would reach the register file from its end (seed C02h)
@@ -358,6 +383,8 @@ def correspondence(ctx, model_available=True):
 
     # (d) debugger histories that write state: oracle on the real shell, and the session model
     import dbgprops as dp
+    spec_failures += library_calls_oracle(rng, 250 if quick else 3000)
+    dist["library_calls"] = 250 if quick else 3000
     dsessions = debugger_histories(rng, 30 if quick else 400, spec_failures, dist)
     after_the_end(spec_failures, dist)
     full_address_space(spec_failures, dist, quick)
